@@ -277,4 +277,84 @@ def deliver (sh : ConsensusShape) (cfg : TrustCfg) (self : Nat) (set : List Nat)
 def deliverAll (sh : ConsensusShape) (cfg : TrustCfg) (self : Nat) (set : List Nat) (pins : List Nat) (ms : List Msg) : List Nat :=
   ms.foldl (deliver sh cfg self set) pins
 
+/-! ## where the policy table comes from (cluster_config.go, cmd/ipfs-cluster-follow)
+
+The RPC server reads `c.config.RPCPolicy`. A cluster `Config` is built by `Default()`, `LoadJSON(file)`,
+`ApplyEnvVars()`; `ipfs-cluster-follow` then assigns into the table. The translator reads who assigns
+`RPCPolicy` (`PolShape`), the model interprets it: the table in effect after a sequence of sources, for a
+file / an environment that TRY to carry policy entries (under the key spellings the harness injects). -/
+
+/-- one configuration step of the cluster `Config` -/
+inductive PSource where
+  | default                                -- `cfg.Default()`
+  | load (extra : List (String × Int))     -- `cfg.LoadJSON(valid file + an "rpc_policy"-like object with these entries)`
+  | env (extra : List (String × Int))      -- `cfg.ApplyEnvVars()` with CLUSTER_RPCPOLICY-like variables set to these entries
+  | follower                               -- the keyed assignments of cmd/ipfs-cluster-follow
+  deriving Repr, DecidableEq
+
+/-- a keyed assignment `<cfg>.RPCPolicy["k"] = v` found outside `setDefaults` -/
+structure PolWrite where
+  /-- package directory and enclosing function of the assignment -/
+  dir : String
+  fn : String
+  key : String
+  value : Int
+  deriving Repr, DecidableEq
+
+/-- what the translator reads off cluster_config.go and every other non-test file that mentions `RPCPolicy` -/
+structure PolShape where
+  /-- `setDefaults` contains `cfg.RPCPolicy = DefaultRPCPolicy` -/
+  setDefaultsInstalls : Bool
+  /-- `Default()` / `LoadJSON()` call `cfg.setDefaults()` -/
+  defaultCallsSetDefaults : Bool
+  loadCallsSetDefaults : Bool
+  /-- JSON keys of `configJSON` fields that could carry a table (map-typed, or named like the policy);
+      such a field is also what envconfig would fill from `CLUSTER_<KEY>` -/
+  jsonPolicyKeys : List String
+  /-- does `applyConfigJSON` (shared by LoadJSON and ApplyEnvVars) assign or index `cfg.RPCPolicy` -/
+  applyWritesPolicy : Bool
+  /-- keyed assignments into the table anywhere else (site, key, value) -/
+  keyedWrites : List PolWrite
+  /-- assignments to / deletions from `RPCPolicy` or `DefaultRPCPolicy` the translator could not read -/
+  unknownWrites : List String
+  deriving Repr
+
+/-- `setDefaults` assigns the package-level map itself (`cfg.RPCPolicy = DefaultRPCPolicy`: shared, not copied), so a
+    keyed assignment through the `Config` edits `DefaultRPCPolicy`. State: that map, and whether the `Config` points
+    to it yet (`false`: Go's nil map, every lookup misses) -/
+structure PolState where
+  global : Policy
+  installed : Bool
+  deriving Repr
+
+/-- the keys the harness spells an injected table with -/
+def injectedKeys : List String := ["rpc_policy", "rpcpolicy", "RPCPolicy"]
+
+/-- entries of a file / the environment reach the table only if `configJSON` has a field for them that
+    `applyConfigJSON` applies -/
+def carries (sh : PolShape) : Bool := sh.applyWritesPolicy && sh.jsonPolicyKeys.any injectedKeys.contains
+
+def mergeEntries (pol : Policy) (extra : List (String × Int)) : Policy :=
+  extra.foldl (fun p e => override p e.1 (some e.2)) pol
+
+def polStep (sh : PolShape) (st : PolState) : PSource → PolState
+  | .default => { st with installed := st.installed || (sh.defaultCallsSetDefaults && sh.setDefaultsInstalls) }
+  | .load extra =>
+    let inst := st.installed || (sh.loadCallsSetDefaults && sh.setDefaultsInstalls)
+    { global := if carries sh && inst then mergeEntries st.global extra else st.global, installed := inst }
+  | .env extra => { st with global := if carries sh && st.installed then mergeEntries st.global extra else st.global }
+  | .follower =>
+    { st with global := if st.installed then sh.keyedWrites.foldl (fun q w => override q w.key (some w.value)) st.global
+                        else st.global }
+
+/-- state after the steps, in order, starting from a zero `Config` and the shipped table -/
+def policyAfter (sh : PolShape) (shipped : Policy) (srcs : List PSource) : PolState :=
+  srcs.foldl (polStep sh) { global := shipped, installed := false }
+
+/-- the table the closure looks names up in (nil map: nothing found) -/
+def PolState.table (st : PolState) : Policy := if st.installed then st.global else []
+
+def policyOf (sh : PolShape) (shipped : Policy) (srcs : List PSource) : Policy :=
+  (policyAfter sh shipped srcs).table
+
 end CV.C07
